@@ -17,7 +17,7 @@ from .source import Repo
 RLIMIT_PER_MS = 6000
 
 
-from .engine import guarded_check  # noqa: E402
+from .engine import guarded_check, forked_check  # noqa: E402
 
 
 class FunctionReport:
@@ -245,7 +245,7 @@ class Engine:
         raise ContractError(f"unknown type {typ!r} for {name}")
 
     # -- verification of one function -------------------------------------------------------------
-    def verify(self, qualname):
+    def verify(self, qualname, only_variants=None):
         rep = FunctionReport(qualname)
         t0 = time.time()
         c = self.reg.contracts.get(qualname)
@@ -260,6 +260,8 @@ class Engine:
         variants = c.variants or [{}]
         try:
             for vi, var in enumerate(variants):
+                if only_variants is not None and vi not in only_variants:
+                    continue
                 rep.variants += 1
                 self.verify_variant(info, c, var, vi, rep)
         except Unsupported as u:
@@ -336,7 +338,7 @@ class Engine:
             p.assume(p.eval_contract_expr(expr))
         # vacuity guard: the precondition must be satisfiable
         if p.dpos == 0 and not p.decisions:
-            if guarded_check(p.solver, 2000) == z3.unsat:
+            if forked_check(p.solver, 2000) == z3.unsat:
                 ob = p.oblige("requires-satisfiable", "vacuity", z3.BoolVal(False), c.props)
                 ob.pc = []
                 return
@@ -364,6 +366,8 @@ class Engine:
             for j, cl in enumerate(c.all_ensures(p.variant)):
                 props, lab, expr = p._clause(cl, p.func_stack[-1])
                 p.oblige(lab or f"ensures{j}", "post", p.eval_contract_expr(expr), props)
+            for tgt, goal in p.shapes_goal(c.extra.get("shapes_out", {}), p.variant):
+                p.oblige(f"shape of {tgt}", "post", goal, c.props)
             # canary: the path that reaches the postcondition must be feasible
             ob = p.oblige("canary", "canary", z3.BoolVal(False), [])
         else:
